@@ -291,6 +291,9 @@ class Completion:
                 )
             elif nonterminals[-1] in ('trailer', 'dotted_name') and nodes[-1] == '.':
                 dot = self._module_node.get_leaf_for_position(self._position)
+                if dot is None:
+                    # The cursor is in whitespace or a comment behind the dot.
+                    dot = leaf.get_previous_leaf()
                 if dot.type == "newline":
                     dot = dot.get_previous_leaf()
                 if dot.type == "endmarker":
